@@ -77,6 +77,25 @@ class Run:
     def undecided(self, rule, key, why, where=None):
         self.violation(rule, key, "UNDECIDED(%s)" % why, where)
 
+    def witnesses(self, prefix, rule):
+        """thorough tier: compile-level witnesses (compile_fail doc-tests with compiling twins) whose
+        name starts with `prefix`; the compiler's verdict is the obligation."""
+        if self.tier != "thorough":
+            return
+        import subprocess
+        r = subprocess.run([os.path.join(VERIF, "bin", "witness")], capture_output=True, text=True)
+        lines = [l for l in r.stdout.splitlines() if l.startswith("test ") and (" - %s " % prefix) in l]
+        if not lines:
+            self.undecided(rule, "witness|%s|missing" % prefix, "no witness doc-test for %s ran: %s" % (prefix, (r.stdout + r.stderr)[-400:]))
+            return
+        for l in lines:
+            name = l.split(" ... ")[0].replace("test src/lib.rs - ", "")
+            kind = "compile_fail" if "compile fail" in name else "twin-compiles"
+            key = "witness|%s|%s" % (prefix, kind)
+            n = sum(1 for o in self.obligations if o["key"].startswith(key))
+            self.ob(rule, "%s#%d" % (key, n), l.rstrip().endswith("ok"),
+                    "compile-level witness '%s' did not behave as required: %s" % (name, l), sample={"witness": name, "verdict": l.split(" ... ")[-1]})
+
     def sample(self, s):
         if len(self.samples) < 40:
             self.samples.append(s)
